@@ -1,14 +1,38 @@
+// jdsim is the deterministic simulator for josephburnett/jd. It is built inside
+// an instrumented scratch copy of the repository (see /verif/build.sh) and
+// contains the real library and both real main() bodies.
+//
+//	jdsim check   -prop C14 -tier quick ...   coordinator: self-tests, workers, shrink, replay check, evidence
+//	jdsim worker  ...                         one single-threaded worker over a slice of run numbers
+//	jdsim digest  ...                         per-run digests for the determinism self-test
+//	jdsim replay  <file>                      re-execute a replay file
+//	jdsim smoke                               a few fixed sessions, for eyeballing
 package main
 
 import (
+	"encoding/json"
+	"flag"
 	"fmt"
 	"os"
+	"sort"
+	"strconv"
+	"sync/atomic"
+	"time"
 )
 
+// Stats is everything a worker measures. Only counters; no clocks inside runs.
 type Stats struct {
-	Procs int64
-	Steps int64
-	Fired map[string]int64
+	Runs        int64            `json:"runs"`
+	Cases       int64            `json:"cases"`
+	Procs       int64            `json:"procs"`
+	LibCalls    int64            `json:"lib_calls"`
+	Steps       int64            `json:"steps"`
+	Fired       map[string]int64 `json:"fired"`
+	Probes      map[string]int64 `json:"probes"`
+	Clauses     map[string]int64 `json:"clauses"`
+	MapSites    map[string]int64 `json:"map_sites_permuted"`
+	Sigs        map[uint64]bool  `json:"-"`
+	NontrivSigs map[uint64]bool  `json:"-"`
 }
 
 func (s *Stats) fired(k string) {
@@ -18,35 +42,250 @@ func (s *Stats) fired(k string) {
 	s.Fired[k]++
 }
 
+func (s *Stats) probe(k string) {
+	if s.Probes == nil {
+		s.Probes = map[string]int64{}
+	}
+	s.Probes[k]++
+}
+
+func (s *Stats) clause(k string) {
+	if s.Clauses == nil {
+		s.Clauses = map[string]int64{}
+	}
+	s.Clauses[k]++
+}
+
+func (s *Stats) sig(sig string, nontrivial bool) {
+	if s.Sigs == nil {
+		s.Sigs = map[uint64]bool{}
+		s.NontrivSigs = map[uint64]bool{}
+	}
+	h := strSeed(sig)
+	s.Sigs[h] = true
+	if nontrivial {
+		s.NontrivSigs[h] = true
+	}
+}
+
 var stats Stats
+
+// Found is a violation with the concrete case that produced it.
+type Found struct {
+	Run   int64           `json:"run"`
+	V     Violation       `json:"violation"`
+	Case  json.RawMessage `json:"case"`
+	Log   []string        `json:"event_log"`
+	Count int64           `json:"count"` // how many cases of this class the worker saw
+}
+
+// WorkerOut is what a worker writes.
+type WorkerOut struct {
+	Stats       Stats             `json:"stats"`
+	Sigs        []uint64          `json:"sigs"`
+	NontrivSigs []uint64          `json:"nontrivial_sigs"`
+	Found       []Found           `json:"found"`
+	Samples     []json.RawMessage `json:"samples"`
+	Digests     map[string]string `json:"digests,omitempty"`
+	EndedBy     string            `json:"ended_by"`
+	Hang        *Found            `json:"hang,omitempty"`
+}
+
+// Engine is one property's simulation engine.
+type Engine struct {
+	Prop string
+	// Run performs run number `run` with all choices from ch, reporting every
+	// evaluated case through emit.
+	Run func(ch *Chooser, emit func(c any, v *Violation, log []string, info *caseInfo))
+	// Check re-evaluates a concrete case (replay, shrinking).
+	Check func(raw json.RawMessage) (*Violation, []string, error)
+	// Shrink returns one-step reductions of a case.
+	Shrink func(raw json.RawMessage) []json.RawMessage
+}
+
+var engines = map[string]*Engine{}
+
+func runSeed(seed uint64, prop string, run int64) uint64 {
+	return mix(seed, strSeed(prop), uint64(run))
+}
+
+// current case, for the watchdog
+var curCase atomic.Value
+var curStart atomic.Int64
 
 func main() {
 	if len(os.Args) < 2 {
-		fmt.Fprintln(os.Stderr, "usage: jdsim <cmd>")
+		fmt.Fprintln(os.Stderr, "usage: jdsim <check|worker|digest|replay|smoke> ...")
 		os.Exit(2)
 	}
 	switch os.Args[1] {
 	case "smoke":
 		smoke()
+	case "worker":
+		workerMain(os.Args[2:])
+	case "digest":
+		digestMain(os.Args[2:])
+	case "replay":
+		replayMain(os.Args[2:])
+	case "check":
+		checkMain(os.Args[2:])
+	case "fidelity":
+		fidelityMain(os.Args[2:])
 	default:
-		fmt.Fprintln(os.Stderr, "unknown command")
+		fmt.Fprintln(os.Stderr, "unknown command", os.Args[1])
 		os.Exit(2)
 	}
 }
 
-func smoke() {
-	files := []File{{"a.json", Blob(`{"a":[1,2,3],"b":1}`)}, {"b.json", Blob(`{"a":[1,4,3],"c":2}`)}}
-	for _, bin := range []string{"v2", "top"} {
-		fs := fsFromFiles(files, nil)
-		for _, argv := range [][]string{{"a.json", "b.json"}, {"-f", "patch", "-o", "p", "a.json", "b.json"}, {"-p", "-f=patch", "p", "a.json"}, {"nope", "b.json"}, {"-zz"}, {"-v2=false", "a.json", "b.json"}, {"-version"}, {"-port", "8080"}} {
-			r := runProc(fs, ProcSpec{Bin: bin, Argv: argv}, 8, nil)
-			fmt.Printf("== %s %v -> code=%d crash=%q\nstdout=%q\nstderr=%q\n", bin, argv, r.Code, r.Crash, r.Stdout, r.Stderr)
-			for _, l := range eventLog(0, r) {
-				fmt.Println("   ", l)
+func infra(format string, a ...any) {
+	fmt.Fprintf(os.Stderr, "INFRA-ERROR "+format+"\n", a...)
+	fmt.Printf("INFRA-ERROR "+format+"\n", a...)
+	os.Exit(2)
+}
+
+// ---------------------------------------------------------------- worker
+
+func workerMain(args []string) {
+	fs := flag.NewFlagSet("worker", flag.ExitOnError)
+	prop := fs.String("prop", "", "property id")
+	seed := fs.Uint64("seed", 1, "VERIF_SEED")
+	w := fs.Int64("w", 0, "worker index")
+	n := fs.Int64("n", 1, "number of workers")
+	runs := fs.Int64("runs", 1000, "run numbers explored are [0, runs)")
+	budget := fs.Float64("budget", 60, "wall-clock budget in seconds")
+	out := fs.String("out", "", "result file")
+	watchdog := fs.Float64("watchdog", 20, "per-case wall-clock limit in seconds")
+	fs.Parse(args)
+	e := engines[*prop]
+	if e == nil {
+		infra("no engine for property %q", *prop)
+	}
+	res := WorkerOut{EndedBy: "run-count"}
+	classes := map[string]int{}
+	start := time.Now()
+
+	// watchdog: lives outside the runs, never influences one
+	go func() {
+		for {
+			time.Sleep(500 * time.Millisecond)
+			st := curStart.Load()
+			if st == 0 {
+				continue
+			}
+			if time.Since(time.Unix(0, st)).Seconds() > *watchdog {
+				c, _ := curCase.Load().(json.RawMessage)
+				res.Hang = &Found{Case: c, V: Violation{Prop: *prop, Clause: "hang", Where: "?", Detail: fmt.Sprintf("case did not finish within %.0fs", *watchdog)}}
+				res.EndedBy = "hang"
+				writeWorkerOut(*out, &res)
+				os.Exit(3)
 			}
 		}
-		r := runProc(fs, ProcSpec{Bin: bin, Argv: []string{"a.json"}, Stdin: &StdinSpec{From: "file:b.json", Plan: []int{1, 0, 3}}}, 8, nil)
-		fmt.Printf("== stdin -> code=%d stdout=%q steps=%d\n", r.Code, r.Stdout, len(r.Steps))
-		fmt.Println(fsDigest(fs))
+	}()
+
+	for run := *w; run < *runs; run += *n {
+		if time.Since(start).Seconds() > *budget {
+			res.EndedBy = "time-budget"
+			break
+		}
+		ch := newChooser(runSeed(*seed, *prop, run))
+		stats.Runs++
+		e.Run(ch, func(c any, v *Violation, log []string, info *caseInfo) {
+			stats.Cases++
+			if info != nil {
+				stats.sig(info.Sig, info.Nontrivial)
+			}
+			if v != nil {
+				stats.clause(v.Clause + " VIOLATED")
+				cl := v.Class()
+				if idx, ok := classes[cl]; ok {
+					res.Found[idx].Count++
+					return
+				}
+				raw, _ := json.Marshal(c)
+				classes[cl] = len(res.Found)
+				res.Found = append(res.Found, Found{Run: run, V: *v, Case: raw, Log: log, Count: 1})
+				return
+			}
+			if len(res.Samples) < 3 && info != nil && info.Nontrivial && stats.Cases%7 == 1 {
+				raw, _ := json.Marshal(c)
+				res.Samples = append(res.Samples, raw)
+			}
+		})
+		curStart.Store(0)
+	}
+	res.Stats = stats
+	for h := range stats.Sigs {
+		res.Sigs = append(res.Sigs, h)
+	}
+	for h := range stats.NontrivSigs {
+		res.NontrivSigs = append(res.NontrivSigs, h)
+	}
+	sort.Slice(res.Sigs, func(i, j int) bool { return res.Sigs[i] < res.Sigs[j] })
+	sort.Slice(res.NontrivSigs, func(i, j int) bool { return res.NontrivSigs[i] < res.NontrivSigs[j] })
+	writeWorkerOut(*out, &res)
+}
+
+func writeWorkerOut(path string, res *WorkerOut) {
+	b, err := json.Marshal(res)
+	if err != nil {
+		infra("marshal worker result: %v", err)
+	}
+	if path == "" {
+		os.Stdout.Write(b)
+		return
+	}
+	if err := os.WriteFile(path, b, 0o644); err != nil {
+		infra("write worker result: %v", err)
+	}
+}
+
+// guard marks the start of a case evaluation for the watchdog.
+func guard(c any) {
+	raw, _ := json.Marshal(c)
+	curCase.Store(json.RawMessage(raw))
+	curStart.Store(time.Now().UnixNano())
+}
+
+// ---------------------------------------------------------------- digest
+
+// digestMain prints one line per run: a digest of everything the run did
+// (tape, cases, verdicts, event logs). Two executions of the same run must
+// print the same line whatever GOMAXPROCS or the process is.
+func digestMain(args []string) {
+	fs := flag.NewFlagSet("digest", flag.ExitOnError)
+	prop := fs.String("prop", "", "property id")
+	seed := fs.Uint64("seed", 1, "VERIF_SEED")
+	from := fs.Int64("from", 0, "first run")
+	to := fs.Int64("to", 10, "one past the last run")
+	step := fs.Int64("step", 1, "stride")
+	fs.Parse(args)
+	e := engines[*prop]
+	if e == nil {
+		infra("no engine for property %q", *prop)
+	}
+	for run := *from; run < *to; run += *step {
+		ch := newChooser(runSeed(*seed, *prop, run))
+		h := uint64(1469598103934665603)
+		add := func(s string) {
+			h = (h ^ strSeed(s)) * 1099511628211
+		}
+		ncase := 0
+		e.Run(ch, func(c any, v *Violation, log []string, info *caseInfo) {
+			ncase++
+			raw, _ := json.Marshal(c)
+			add(string(raw))
+			if v != nil {
+				add(v.Class())
+				add(v.Detail)
+			}
+			for _, l := range log {
+				add(l)
+			}
+			if info != nil {
+				add(info.Sig)
+			}
+		})
+		add(strconv.FormatUint(ch.tape, 16))
+		fmt.Printf("%s run=%d cases=%d choices=%d digest=%016x\n", *prop, run, ncase, ch.count, h)
 	}
 }
